@@ -45,6 +45,7 @@ package labelindex
 
 import (
 	"reflect"
+	"slices"
 
 	v3 "github.com/projectcalico/api/pkg/apis/projectcalico/v3"
 	log "github.com/sirupsen/logrus"
@@ -225,6 +226,9 @@ func (idx *InheritIndex) UpdateLabels(id any, labels uniquelabels.Map, parentIDs
 		for i, pID := range parentIDs {
 			parents[i] = idx.getOrCreateParent(pID)
 		}
+		// A parent that is named more than once is inherited once; the per-parent
+		// bookkeeping assumes that each parent appears once in the list.
+		parents = dedupeParents(parents)
 		newItemData.parents = parents
 	}
 	idx.itemDataByID[id] = newItemData
@@ -429,4 +433,16 @@ func (idx *InheritIndex) deleteMatch(selId, labelId any) {
 
 		idx.OnMatchStopped(selId, labelId)
 	}
+}
+
+// dedupeParents removes repeated entries from a freshly-built parent list (in place), keeping the
+// first occurrence of each parent.
+func dedupeParents[T comparable](parents []T) []T {
+	out := parents[:0]
+	for _, p := range parents {
+		if !slices.Contains(out, p) {
+			out = append(out, p)
+		}
+	}
+	return out
 }
